@@ -120,6 +120,12 @@ func (dc *DomConverter) visitElementNodeHandler(node *html.Node) bool {
 		return false
 	}
 
+	// The character data of an SVG or MathML element that is named like one of HTML's raw
+	// text elements would be written out unescaped, so it must not become content.
+	if domutil.IsForeignRawTextElement(node) {
+		return false
+	}
+
 	// Skip social and sharing elements.
 	// See crbug.com/692553, crbug.com/696556, and crbug.com/674557
 	className := dom.ClassName(node)
